@@ -421,7 +421,7 @@ func (p *Prog) ConstMap(g *ssa.Global) map[string]AV {
 			case *ssa.Store:
 				if x.Addr == g {
 					stores++
-					if m, isMk := x.Val.(*ssa.MakeMap); isMk && fn == init {
+					if m, isMk := x.Val.(*ssa.MakeMap); isMk && (fn == init || (strings.HasPrefix(fn.Name(), "init#") && fn.Pkg == g.Pkg && fn.Signature.Recv() == nil)) {
 						mk = m
 					} else {
 						ok = false
@@ -680,4 +680,41 @@ func (p *Prog) KeywordTable() map[string]string {
 		}
 	}
 	return got
+}
+
+var usedAsValueCache = map[*ssa.Function]bool{}
+var usedAsValueDone = map[*ssa.Function]bool{}
+
+// UsedAsValue: is fn referenced anywhere in the module other than as the callee of a direct call (stored, passed,
+// bound as a method value, deferred through a value), or can it be reached through an interface?
+func (p *Prog) UsedAsValue(fn *ssa.Function) bool {
+	if usedAsValueDone[fn] {
+		return usedAsValueCache[fn]
+	}
+	usedAsValueDone[fn] = true
+	used := false
+	if node := p.CG().Nodes[fn]; node != nil {
+		for _, e := range node.In {
+			if e.Site == nil || e.Site.Common().StaticCallee() != fn {
+				used = true
+			}
+		}
+	}
+	for _, caller := range p.ModuleFuncs() {
+		if used {
+			break
+		}
+		instrsOf(caller, func(in ssa.Instruction) {
+			var ops []*ssa.Value
+			for _, op := range in.Operands(ops) {
+				if *op == ssa.Value(fn) {
+					if ci, isCall := in.(ssa.CallInstruction); !isCall || ci.Common().Value != ssa.Value(fn) {
+						used = true
+					}
+				}
+			}
+		})
+	}
+	usedAsValueCache[fn] = used
+	return used
 }
